@@ -236,6 +236,80 @@ func unkInject(c *Ctx, md protoreflect.MessageDescriptor, b []byte, depth int, p
 	return out
 }
 
+// unkRepeat makes known message-typed fields occur SEVERAL times: a singular message / oneof member /
+// group occurrence is emitted twice, a map entry twice with the same key, each copy with its own
+// injected unknown fields (unknown numbers and wrong-wire-type occurrences) in the sub-message, at
+// every nesting level.  The decoder merges the occurrences; the unknown fields of every message node
+// must be the concatenation, in input order, of the unknown fields of all its occurrences.
+func unkRepeat(c *Ctx, md protoreflect.MessageDescriptor, b []byte, depth int, pad, slow bool) []byte {
+	chunks, ok := unkSplit(b)
+	if !ok || depth <= 0 {
+		return b
+	}
+	var out []byte
+	for _, ch := range chunks {
+		fd := msgFindField(md, ch.num)
+		if fd == nil || fd.Message() == nil || !msgFieldAccepts(fd, ch.typ) {
+			out = append(out, ch.tag...)
+			out = append(out, ch.val...)
+			continue
+		}
+		padSub := pad && !(slow && fd.IsExtension())
+		copies := 1
+		if !fd.IsList() && c.Intn(2) == 0 { // singular message, oneof member, group, map entry
+			copies = 2 + c.Intn(2)
+		}
+		for k := 0; k < copies; k++ {
+			switch ch.typ {
+			case protowire.BytesType:
+				p, n := protowire.ConsumeBytes(ch.val)
+				if n < 0 {
+					out = append(append(out, ch.tag...), ch.val...)
+					continue
+				}
+				var p2 []byte
+				if fd.IsMap() {
+					// the entry: keep the key, rework the value message
+					ent, ok2 := unkSplit(p)
+					if !ok2 {
+						p2 = p
+					} else {
+						for _, e := range ent {
+							if e.num == 2 && e.typ == protowire.BytesType && fd.MapValue().Message() != nil {
+								if q, m := protowire.ConsumeBytes(e.val); m >= 0 {
+									q2 := unkRepeat(c, fd.MapValue().Message(), unkInject(c, fd.MapValue().Message(), q, 1, padSub, slow), depth-1, padSub, slow)
+									p2 = append(p2, e.tag...)
+									p2 = protowire.AppendBytes(p2, q2)
+									continue
+								}
+							}
+							p2 = append(p2, e.tag...)
+							p2 = append(p2, e.val...)
+						}
+					}
+				} else {
+					p2 = unkRepeat(c, fd.Message(), unkInject(c, fd.Message(), p, 1, padSub, slow), depth-1, padSub, slow)
+				}
+				out = append(out, ch.tag...)
+				out = protowire.AppendBytes(out, p2)
+			case protowire.StartGroupType:
+				p, n := protowire.ConsumeGroup(ch.num, ch.val)
+				if n < 0 {
+					out = append(append(out, ch.tag...), ch.val...)
+					continue
+				}
+				p2 := unkRepeat(c, fd.Message(), unkInject(c, fd.Message(), p, 1, padSub, slow), depth-1, padSub, slow)
+				out = append(out, ch.tag...)
+				out = append(out, p2...)
+				out = protowire.AppendTag(out, ch.num, protowire.EndGroupType)
+			default:
+				out = append(append(out, ch.tag...), ch.val...)
+			}
+		}
+	}
+	return out
+}
+
 type unkChunk struct {
 	num protowire.Number
 	typ protowire.Type
@@ -389,6 +463,10 @@ func unkOne(c *Ctx, t *w2aTarget) {
 	if c.Intn(4) != 0 {
 		bi = unkInject(c, fl.md, b0, 3, pad, fl.slow)
 	}
+	if c.Intn(2) == 0 {
+		bi = unkRepeat(c, fl.md, bi, 3, pad, fl.slow)
+		c.Stat("repeated_occurrences")
+	}
 	c.Stat("value_" + fl.name)
 	eager := proto.UnmarshalOptions{NoLazyDecoding: true}
 
@@ -429,6 +507,44 @@ func unkOne(c *Ctx, t *w2aTarget) {
 	}
 	if m2, err := w2aUnmarshal(fl, b1, eager); err != nil || !proto.Equal(m1.Interface(), m2.Interface()) || !w2aEqToks(msgDump(m1), msgDump(m2)) {
 		c.PropFail("C09", "message with unknown fields does not survive Marshal/Unmarshal: "+fl.what(), HexB(bi))
+	}
+
+	// --- P2b the table-driven and the reflection path retain the same unknown fields in every message
+	// node (identical dumps; with non-minimal tags in the input they differ by the tag normalisation)
+	if !pad {
+		for _, f2 := range t.fls {
+			if f2.name == fl.name || f2.noDec || msgLegacyReach(f2.md) {
+				continue
+			}
+			m2, err2 := w2aUnmarshal(f2, bi, eager)
+			if err2 != nil || !w2aEqToks(msgDump(m2), msgDump(m1)) {
+				c.PropFail("C09", "generated and dynamicpb decoders retain different unknown fields: "+fl.what(), HexB(bi))
+			}
+		}
+	}
+	// --- P2c UnmarshalOptions{Merge:true} into a destination that already holds unknown fields (root and
+	// sub-messages): the new unknown fields are appended, in every message node
+	if m2f := fl.new(); w2aFill(c, m2f, 1+c.Intn(2), true) {
+		if b2, errb := w2aMarshal.Marshal(m2f.Interface()); errb == nil {
+			b2 = unkInject(c, fl.md, b2, 3, pad, fl.slow)
+			if c.Bool() {
+				b2 = unkRepeat(c, fl.md, b2, 3, pad, fl.slow)
+			}
+			if !(msgLegacyReach(fl.md) && msgFB1Class(fl.md, b2)) {
+				dst, _ := w2aUnmarshal(fl, bi, eager)
+				errm := w2aOpts(fl, proto.UnmarshalOptions{Merge: true, AllowPartial: true, NoLazyDecoding: true}).Unmarshal(b2, dst.Interface())
+				if errm != nil {
+					c.PropFail("C09", "UnmarshalOptions{Merge:true} fails on well-formed input: "+fl.what(), HexB(bi), HexB(b2))
+				} else {
+					c.Case("merge", "into", []string{id, "0", fl.mode(), HexB(bi), HexB(b2)}, append([]string{"ok"}, msgDump(dst)...))
+					exp2, _ := unkExpected(fl.md, b2, !fl.slow)
+					if !bytes.Equal(dst.GetUnknown(), append(append([]byte(nil), exp...), exp2...)) {
+						c.PropFail("C09", "UnmarshalOptions{Merge:true} does not append the new unknown fields to the existing ones: "+fl.what(), HexB(bi), HexB(b2), HexB(dst.GetUnknown()))
+					}
+					c.Stat("merge_into")
+				}
+			}
+		}
 	}
 
 	// --- P3 lazy decoding keeps the same unknown fields
